@@ -3,182 +3,216 @@ package vatomic
 
 import (
 	"sync/atomic"
+	"unsafe"
 
 	"verif.local/engine/vsched"
 )
 
 //go:norace
-func pt(what string) { vsched.Yield(what) }
+func pt(what string, p unsafe.Pointer) { vsched.YieldObj(what, uintptr(p), what != "atomic.Load") }
 
 type Int64 struct{ v atomic.Int64 }
 
 //go:norace
-func (x *Int64) Load() int64 { pt("atomic.Load"); return x.v.Load() }
+func (x *Int64) Load() int64 { pt("atomic.Load", unsafe.Pointer(x)); return x.v.Load() }
 
 //go:norace
-func (x *Int64) Store(n int64) { pt("atomic.Store"); x.v.Store(n) }
+func (x *Int64) Store(n int64) { pt("atomic.Store", unsafe.Pointer(x)); x.v.Store(n) }
 
 //go:norace
-func (x *Int64) Add(d int64) int64 { pt("atomic.Add"); return x.v.Add(d) }
+func (x *Int64) Add(d int64) int64 { pt("atomic.Add", unsafe.Pointer(x)); return x.v.Add(d) }
 
 //go:norace
-func (x *Int64) Swap(n int64) int64 { pt("atomic.Swap"); return x.v.Swap(n) }
+func (x *Int64) Swap(n int64) int64 { pt("atomic.Swap", unsafe.Pointer(x)); return x.v.Swap(n) }
 
 //go:norace
-func (x *Int64) CompareAndSwap(o, n int64) bool { pt("atomic.CAS"); return x.v.CompareAndSwap(o, n) }
+func (x *Int64) CompareAndSwap(o, n int64) bool {
+	pt("atomic.CAS", unsafe.Pointer(x))
+	return x.v.CompareAndSwap(o, n)
+}
 
 type Uint64 struct{ v atomic.Uint64 }
 
 //go:norace
-func (x *Uint64) Load() uint64 { pt("atomic.Load"); return x.v.Load() }
+func (x *Uint64) Load() uint64 { pt("atomic.Load", unsafe.Pointer(x)); return x.v.Load() }
 
 //go:norace
-func (x *Uint64) Store(n uint64) { pt("atomic.Store"); x.v.Store(n) }
+func (x *Uint64) Store(n uint64) { pt("atomic.Store", unsafe.Pointer(x)); x.v.Store(n) }
 
 //go:norace
-func (x *Uint64) Add(d uint64) uint64 { pt("atomic.Add"); return x.v.Add(d) }
+func (x *Uint64) Add(d uint64) uint64 { pt("atomic.Add", unsafe.Pointer(x)); return x.v.Add(d) }
 
 //go:norace
-func (x *Uint64) Swap(n uint64) uint64 { pt("atomic.Swap"); return x.v.Swap(n) }
+func (x *Uint64) Swap(n uint64) uint64 { pt("atomic.Swap", unsafe.Pointer(x)); return x.v.Swap(n) }
 
 //go:norace
 func (x *Uint64) CompareAndSwap(o, n uint64) bool {
-	pt("atomic.CAS")
+	pt("atomic.CAS", unsafe.Pointer(x))
 	return x.v.CompareAndSwap(o, n)
 }
 
 type Int32 struct{ v atomic.Int32 }
 
 //go:norace
-func (x *Int32) Load() int32 { pt("atomic.Load"); return x.v.Load() }
+func (x *Int32) Load() int32 { pt("atomic.Load", unsafe.Pointer(x)); return x.v.Load() }
 
 //go:norace
-func (x *Int32) Store(n int32) { pt("atomic.Store"); x.v.Store(n) }
+func (x *Int32) Store(n int32) { pt("atomic.Store", unsafe.Pointer(x)); x.v.Store(n) }
 
 //go:norace
-func (x *Int32) Add(d int32) int32 { pt("atomic.Add"); return x.v.Add(d) }
+func (x *Int32) Add(d int32) int32 { pt("atomic.Add", unsafe.Pointer(x)); return x.v.Add(d) }
 
 //go:norace
-func (x *Int32) CompareAndSwap(o, n int32) bool { pt("atomic.CAS"); return x.v.CompareAndSwap(o, n) }
+func (x *Int32) CompareAndSwap(o, n int32) bool {
+	pt("atomic.CAS", unsafe.Pointer(x))
+	return x.v.CompareAndSwap(o, n)
+}
 
 type Uint32 struct{ v atomic.Uint32 }
 
 //go:norace
-func (x *Uint32) Load() uint32 { pt("atomic.Load"); return x.v.Load() }
+func (x *Uint32) Load() uint32 { pt("atomic.Load", unsafe.Pointer(x)); return x.v.Load() }
 
 //go:norace
-func (x *Uint32) Store(n uint32) { pt("atomic.Store"); x.v.Store(n) }
+func (x *Uint32) Store(n uint32) { pt("atomic.Store", unsafe.Pointer(x)); x.v.Store(n) }
 
 //go:norace
-func (x *Uint32) Add(d uint32) uint32 { pt("atomic.Add"); return x.v.Add(d) }
+func (x *Uint32) Add(d uint32) uint32 { pt("atomic.Add", unsafe.Pointer(x)); return x.v.Add(d) }
 
 //go:norace
 func (x *Uint32) CompareAndSwap(o, n uint32) bool {
-	pt("atomic.CAS")
+	pt("atomic.CAS", unsafe.Pointer(x))
 	return x.v.CompareAndSwap(o, n)
 }
 
 type Bool struct{ v atomic.Bool }
 
 //go:norace
-func (x *Bool) Load() bool { pt("atomic.Load"); return x.v.Load() }
+func (x *Bool) Load() bool { pt("atomic.Load", unsafe.Pointer(x)); return x.v.Load() }
 
 //go:norace
-func (x *Bool) Store(b bool) { pt("atomic.Store"); x.v.Store(b) }
+func (x *Bool) Store(b bool) { pt("atomic.Store", unsafe.Pointer(x)); x.v.Store(b) }
 
 //go:norace
-func (x *Bool) Swap(b bool) bool { pt("atomic.Swap"); return x.v.Swap(b) }
+func (x *Bool) Swap(b bool) bool { pt("atomic.Swap", unsafe.Pointer(x)); return x.v.Swap(b) }
 
 //go:norace
-func (x *Bool) CompareAndSwap(o, n bool) bool { pt("atomic.CAS"); return x.v.CompareAndSwap(o, n) }
+func (x *Bool) CompareAndSwap(o, n bool) bool {
+	pt("atomic.CAS", unsafe.Pointer(x))
+	return x.v.CompareAndSwap(o, n)
+}
 
 type Value struct{ v atomic.Value }
 
 //go:norace
-func (x *Value) Load() interface{} { pt("atomic.Load"); return x.v.Load() }
+func (x *Value) Load() interface{} { pt("atomic.Load", unsafe.Pointer(x)); return x.v.Load() }
 
 //go:norace
-func (x *Value) Store(v interface{}) { pt("atomic.Store"); x.v.Store(v) }
+func (x *Value) Store(v interface{}) { pt("atomic.Store", unsafe.Pointer(x)); x.v.Store(v) }
 
 //go:norace
-func (x *Value) Swap(v interface{}) interface{} { pt("atomic.Swap"); return x.v.Swap(v) }
+func (x *Value) Swap(v interface{}) interface{} {
+	pt("atomic.Swap", unsafe.Pointer(x))
+	return x.v.Swap(v)
+}
 
 //go:norace
 func (x *Value) CompareAndSwap(o, n interface{}) bool {
-	pt("atomic.CAS")
+	pt("atomic.CAS", unsafe.Pointer(x))
 	return x.v.CompareAndSwap(o, n)
 }
 
 type Pointer[T any] struct{ v atomic.Pointer[T] }
 
 //go:norace
-func (x *Pointer[T]) Load() *T { pt("atomic.Load"); return x.v.Load() }
+func (x *Pointer[T]) Load() *T { pt("atomic.Load", unsafe.Pointer(x)); return x.v.Load() }
 
 //go:norace
-func (x *Pointer[T]) Store(p *T) { pt("atomic.Store"); x.v.Store(p) }
+func (x *Pointer[T]) Store(p *T) { pt("atomic.Store", unsafe.Pointer(x)); x.v.Store(p) }
 
 //go:norace
-func (x *Pointer[T]) Swap(p *T) *T { pt("atomic.Swap"); return x.v.Swap(p) }
+func (x *Pointer[T]) Swap(p *T) *T { pt("atomic.Swap", unsafe.Pointer(x)); return x.v.Swap(p) }
 
 //go:norace
-func (x *Pointer[T]) CompareAndSwap(o, n *T) bool { pt("atomic.CAS"); return x.v.CompareAndSwap(o, n) }
+func (x *Pointer[T]) CompareAndSwap(o, n *T) bool {
+	pt("atomic.CAS", unsafe.Pointer(x))
+	return x.v.CompareAndSwap(o, n)
+}
 
 //go:norace
-func AddInt32(p *int32, d int32) int32 { pt("atomic.Add"); return atomic.AddInt32(p, d) }
+func AddInt32(p *int32, d int32) int32 {
+	pt("atomic.Add", unsafe.Pointer(p))
+	return atomic.AddInt32(p, d)
+}
 
 //go:norace
-func AddInt64(p *int64, d int64) int64 { pt("atomic.Add"); return atomic.AddInt64(p, d) }
+func AddInt64(p *int64, d int64) int64 {
+	pt("atomic.Add", unsafe.Pointer(p))
+	return atomic.AddInt64(p, d)
+}
 
 //go:norace
-func AddUint32(p *uint32, d uint32) uint32 { pt("atomic.Add"); return atomic.AddUint32(p, d) }
+func AddUint32(p *uint32, d uint32) uint32 {
+	pt("atomic.Add", unsafe.Pointer(p))
+	return atomic.AddUint32(p, d)
+}
 
 //go:norace
-func AddUint64(p *uint64, d uint64) uint64 { pt("atomic.Add"); return atomic.AddUint64(p, d) }
+func AddUint64(p *uint64, d uint64) uint64 {
+	pt("atomic.Add", unsafe.Pointer(p))
+	return atomic.AddUint64(p, d)
+}
 
 //go:norace
-func LoadInt32(p *int32) int32 { pt("atomic.Load"); return atomic.LoadInt32(p) }
+func LoadInt32(p *int32) int32 { pt("atomic.Load", unsafe.Pointer(p)); return atomic.LoadInt32(p) }
 
 //go:norace
-func LoadInt64(p *int64) int64 { pt("atomic.Load"); return atomic.LoadInt64(p) }
+func LoadInt64(p *int64) int64 { pt("atomic.Load", unsafe.Pointer(p)); return atomic.LoadInt64(p) }
 
 //go:norace
-func LoadUint32(p *uint32) uint32 { pt("atomic.Load"); return atomic.LoadUint32(p) }
+func LoadUint32(p *uint32) uint32 { pt("atomic.Load", unsafe.Pointer(p)); return atomic.LoadUint32(p) }
 
 //go:norace
-func LoadUint64(p *uint64) uint64 { pt("atomic.Load"); return atomic.LoadUint64(p) }
+func LoadUint64(p *uint64) uint64 { pt("atomic.Load", unsafe.Pointer(p)); return atomic.LoadUint64(p) }
 
 //go:norace
-func StoreInt32(p *int32, v int32) { pt("atomic.Store"); atomic.StoreInt32(p, v) }
+func StoreInt32(p *int32, v int32) { pt("atomic.Store", unsafe.Pointer(p)); atomic.StoreInt32(p, v) }
 
 //go:norace
-func StoreInt64(p *int64, v int64) { pt("atomic.Store"); atomic.StoreInt64(p, v) }
+func StoreInt64(p *int64, v int64) { pt("atomic.Store", unsafe.Pointer(p)); atomic.StoreInt64(p, v) }
 
 //go:norace
-func StoreUint32(p *uint32, v uint32) { pt("atomic.Store"); atomic.StoreUint32(p, v) }
+func StoreUint32(p *uint32, v uint32) {
+	pt("atomic.Store", unsafe.Pointer(p))
+	atomic.StoreUint32(p, v)
+}
 
 //go:norace
-func StoreUint64(p *uint64, v uint64) { pt("atomic.Store"); atomic.StoreUint64(p, v) }
+func StoreUint64(p *uint64, v uint64) {
+	pt("atomic.Store", unsafe.Pointer(p))
+	atomic.StoreUint64(p, v)
+}
 
 //go:norace
 func CompareAndSwapInt32(p *int32, o, n int32) bool {
-	pt("atomic.CAS")
+	pt("atomic.CAS", unsafe.Pointer(p))
 	return atomic.CompareAndSwapInt32(p, o, n)
 }
 
 //go:norace
 func CompareAndSwapInt64(p *int64, o, n int64) bool {
-	pt("atomic.CAS")
+	pt("atomic.CAS", unsafe.Pointer(p))
 	return atomic.CompareAndSwapInt64(p, o, n)
 }
 
 //go:norace
 func CompareAndSwapUint32(p *uint32, o, n uint32) bool {
-	pt("atomic.CAS")
+	pt("atomic.CAS", unsafe.Pointer(p))
 	return atomic.CompareAndSwapUint32(p, o, n)
 }
 
 //go:norace
 func CompareAndSwapUint64(p *uint64, o, n uint64) bool {
-	pt("atomic.CAS")
+	pt("atomic.CAS", unsafe.Pointer(p))
 	return atomic.CompareAndSwapUint64(p, o, n)
 }
